@@ -161,6 +161,62 @@ def run_case(case, oracle="plain"):
                                                f"{fam}/{var}/{tr} fill={case['fill']} k={k}: {sid} ({cls} @ {sn.offset}) "
                                                f"= {data[sid]!r}, own bytes {own.hex()} decode to {_show(ref)}"))
                         return
+                if fam == "ES" and k % 8 == 0:
+                    # ES settings table through the bulk read_settings_data(): block-resident settings live at their
+                    # byte offset in the 0109 block, the eco mode groups and switches in their own registers
+                    sdata = await inv.read_settings_data()
+                    outside = [x for x in inv.settings() if type(x).__name__ in R.WIDTH and x.offset >= 1000]
+                    pick = outside[(k // 8) % len(outside)].id_ if outside else None
+                    for st_ in inv.settings():
+                        scls = type(st_).__name__
+                        if scls not in R.WIDTH or st_.id_ not in sdata:
+                            continue
+                        w = R.WIDTH[scls]
+                        if st_.offset < 1000:
+                            own = D.es_block(dev, 0x0109)[st_.offset:st_.offset + w]
+                        elif st_.offset < 30000:
+                            own = dev.get_aa55_bytes(st_.offset, (w + 1) // 2)[:w]
+                        else:
+                            own = dev.get_bytes(st_.offset, (w + 1) // 2)[:w]
+                        if len(own) < w:
+                            continue
+                        ref = R.decode(scls, own, scale=getattr(st_, "scale", None), labels=getattr(st_, "_labels", None))
+                        got = sdata[st_.id_]
+                        how = "read_settings_data()"
+                        stats["values_checked"] += 1
+                        if st_.offset >= 1000:
+                            # its registers are not inside the block that was read: the bulk call has no bytes to
+                            # interpret ('and of nothing else'), the single-value read fetches the setting's registers
+                            if got is not None:
+                                violations.append(viol(f"C12:ES-settings:{scls}:fabricated",
+                                                       f"{fam}/{var}/{tr} fill={case['fill']} k={k}: read_settings_data()"
+                                                       f"[{st_.id_!r}] = {got!r:.120} although the setting's registers "
+                                                       f"({st_.offset}) are not part of the settings block"))
+                                return
+                            if st_.id_ != pick:
+                                continue
+                            rec = await C.do_call(world, "read_setting", lambda i=st_.id_: inv.read_setting(i))
+                            how = "read_setting()"
+                            if rec["outcome"] == "result":
+                                got = rec["value"]
+                            elif rec["outcome"] == "other:ValueError":
+                                got = None
+                            else:
+                                continue
+                        if scls in ("EcoModeV1", "EcoModeV2"):
+                            if ref is R.NOVALUE:
+                                bad = got is not None
+                            else:
+                                bad = got is None or any(R.eco_fields(got).get(kk) != vv for kk, vv in ref.items()
+                                                         if kk in R.eco_fields(got) and kk not in ("days",))
+                        else:
+                            bad = not R.same(got, ref)
+                        if bad:
+                            violations.append(viol(f"C12:ES-settings:{scls}",
+                                                   f"{fam}/{var}/{tr} fill={case['fill']} k={k}: {how}"
+                                                   f"[{st_.id_!r}] = {got!r:.120}, own registers {own.hex()} decode to "
+                                                   f"{_show(ref):.160}"))
+                            return
                 # own-register window through read_sensor for a rotating sample
                 if fam != "ES":
                     plain = [s for s in sensors if type(s).__name__ in R.WIDTH and s.size_ >= min(2, R.WIDTH[type(s).__name__])
@@ -189,7 +245,8 @@ def run_case(case, oracle="plain"):
                                                    f"{own.hex()} decode to {_show(ref)}"))
                             return
             else:
-                exp = D.derived_expectations(dev, fam, sensors, gconst)
+                alts = {}
+                exp = D.derived_expectations(dev, fam, sensors, gconst, alts)
                 for sid, want in D.pair_expectations(sensors, data).items():
                     stats["values_checked"] += 1
                     if data[sid] != want:
@@ -212,6 +269,8 @@ def run_case(case, oracle="plain"):
                             hi, lo = (0 if hi == 0xFFFF else hi), (0 if lo == 0xFFFF else lo)
                             if data[sid] == R.decode_bitmap(hi << (16 + lo), sn._labels):
                                 kname += ":hi<<(16+lo)"
+                        if sid in alts and D.match_derived(data[sid], alts[sid][0]):
+                            kname += ":" + alts[sid][1]
                         key = f"C13:{fam}:{kname}"
                         if key not in {v["key"] for v in violations}:
                             violations.append(viol(key,
